@@ -180,7 +180,10 @@ pub fn begin_record_macro(
             }
             // remove the last item, since it's almost certainly a "macro
             // record" key press action which we don't want to keep.
-            state.macro_items.remove(state.macro_items.len() - 1);
+            // Nothing may have been recorded yet (e.g. the record action was
+            // triggered twice by one key press, or by a macro replay), so
+            // use pop() which tolerates an empty Vec.
+            state.macro_items.pop();
             state.add_release_for_all_unreleased_presses();
 
             if state.starting_macro_id == macro_id {
@@ -259,7 +262,8 @@ pub fn stop_macro(
         // remove the last item independently of `num_actions_to_remove`
         // since it's almost certainly a "macro record stop" key press
         // action which we don't want to keep.
-        state.macro_items.remove(state.macro_items.len() - 1);
+        // Nothing may have been recorded yet; pop() tolerates an empty Vec.
+        state.macro_items.pop();
         log::info!(
             "saving and stopping dynamic macro {} recording with {num_actions_to_remove} actions at the end removed",
             state.starting_macro_id,
